@@ -138,8 +138,13 @@ def _module(draw, ctx):
             defined.append(out)
         else:
             if not bbtypes or (len(bbtypes) < 2 and draw(st.booleans())):
-                pin_in = draw(st.lists(st.sampled_from(["d", "clk", "en", "A", "_p"]), min_size=0, max_size=3, unique=True))
-                pin_out = draw(st.lists(st.sampled_from(["q", "qn", "Y"]), min_size=0 if pin_in else 1, max_size=2, unique=True))
+                if bbtypes and draw(st.integers(0, 2)) == 0:
+                    # a second cell type that uses the first one's pin names in the opposite direction (S = sum / select ...)
+                    pin_in = draw(st.lists(st.sampled_from(["q", "Y", "qn", "en"]), min_size=1, max_size=3, unique=True))
+                    pin_out = draw(st.lists(st.sampled_from(["d", "A", "clk"]), min_size=1, max_size=2, unique=True))
+                else:
+                    pin_in = draw(st.lists(st.sampled_from(["d", "clk", "en", "A", "_p"]), min_size=0, max_size=3, unique=True))
+                    pin_out = draw(st.lists(st.sampled_from(["q", "qn", "Y"]), min_size=0 if pin_in else 1, max_size=2, unique=True))
                 # cell names are case sensitive: BUF / Nand / AND are cells, not the primitives
                 tn = draw(st.sampled_from([None, None, "BUF", "Nand", "AND", "NOT", "Xor", "INVX1", "dff", "BUFX2", "Or"]))
                 if tn is None or tn in [b[0] for b in bbtypes]:
@@ -210,9 +215,10 @@ def _module(draw, ctx):
 def _case(draw, ctx):
     k = draw(st.integers(0, 5))
     if k == 0:
+        fb = draw(st.integers(0, 3)) == 0  # combinational feedback, gates reading their own output included
         spec = draw(S.circuit_spec(min_inputs=1, max_inputs=4, min_gates=1, max_gates=8, max_fanin=4, pools=(VNAMES,),
                                    max_insts=draw(st.sampled_from([0, 1])), unconnected_pins=draw(st.booleans()),
-                                   io_outputs=draw(st.booleans())))
+                                   io_outputs=draw(st.booleans()), cyclic=fb, selfloops=fb))
         return {"kind": "writer", "spec": spec}
     mod = draw(_module(ctx))
     wsl = st.lists(st.integers(0, 7), min_size=5, max_size=40)
